@@ -1121,8 +1121,9 @@ def build_unit(repo, unit, spec, prelude_texts, probe=False):
         out += "\n" + post + "\n"
         item_last = out.count("\n")
         ex.linemap.append((item_first, item_last, name, "body"))
-        inherent = bool(pre) and pre.lstrip().startswith("impl ") and " for " not in pre.split("{")[0]
-        if probe and not it.get("block") and (not pre or inherent) and name in spec.fn:
+        inherent = bool(pre) and re.match(r"impl\b", pre.lstrip()) is not None and " for " not in pre.split("{")[0]
+        attrs_only = bool(pre) and all(l.strip().startswith("#[") or not l.strip() for l in pre.split("\n"))
+        if probe and not it.get("block") and (not pre or inherent or attrs_only) and name in spec.fn:
             # reachability twin: same signature, same requires, `ensures false` -- must be refuted
             tw = "".join(t.text for t in sp)
             tw = re.sub(r"\bfn\s+%s\b" % re.escape(it["fn"] if "rename_fn" not in str(rules) else name), "fn %s__probe" % name, tw, count=1)
